@@ -42,7 +42,7 @@ func runHeap(c *Ctx) {
 
 	// queue type: the named type whose pointer is boxed into heap.Interface
 	var qType types.Type
-	for _, call := range core.Calls(dj, heapInit, heapPop, heapFix, heapPush, heapRem) {
+	for _, call := range p.RegionCalls(dj, heapInit, heapPop, heapFix, heapPush, heapRem) {
 		if mi, ok := call.Common().Args[0].(*ssa.MakeInterface); ok {
 			if pt, ok := mi.X.Type().(*types.Pointer); ok {
 				qType = pt.Elem()
@@ -86,18 +86,51 @@ func runHeap(c *Ctx) {
 
 	// index field: the item field whose load is passed to heap.Fix / heap.Remove
 	// the search itself plus the in-package helpers it calls (one level): a relaxation step may be extracted
+	// the search itself plus its private helpers (set-up, relaxation step, improvement test, result collection …)
 	scope := []*ssa.Function{dj}
-	siteOf := map[*ssa.Function]ssa.CallInstruction{}
-	for _, ci := range core.Calls(dj) {
-		if cal := ci.Common().StaticCallee(); cal != nil && core.Outer(cal).Pkg == p.Graph && cal.Blocks != nil && cal != dj {
-			if cal.Signature.Recv() != nil && core.NamedOf(cal.Signature.Recv().Type()) == "graph.Graph" {
-				continue
-			}
-			if _, dup := siteOf[cal]; !dup {
-				scope = append(scope, cal)
-				siteOf[cal] = ci
+	for _, g := range p.Region(dj) {
+		if g != dj && g.Parent() == nil {
+			scope = append(scope, g)
+			c.R.Func(core.FuncName(g))
+		}
+	}
+	// one binding for the whole region: parameters of helpers with a single call site read as the caller's values
+	regionEnv := map[*ssa.Parameter]ssa.Value{}
+	for _, g := range scope {
+		if g == dj {
+			continue
+		}
+		if sites := p.Callers(g); len(sites) == 1 {
+			for i, prm := range g.Params {
+				if i < len(sites[0].Common().Args) {
+					regionEnv[prm] = sites[0].Common().Args[i]
+				}
 			}
 		}
+	}
+	savedEnv := core.PathEnv
+	core.PathEnv = regionEnv
+	defer func() { core.PathEnv = savedEnv }()
+	up := func(v ssa.Value) ssa.Value {
+		for i := 0; i < 6; i++ {
+			prm, ok := v.(*ssa.Parameter)
+			if !ok {
+				break
+			}
+			a, ok := regionEnv[prm]
+			if !ok {
+				break
+			}
+			v = a
+		}
+		return v
+	}
+	anchorIn := func(in ssa.Instruction) ssa.Instruction {
+		as, _ := p.Anchors(in, dj)
+		if len(as) == 1 {
+			return as[0]
+		}
+		return nil
 	}
 	indexField := ""
 	for _, fn := range scope {
@@ -198,19 +231,20 @@ func runHeap(c *Ctx) {
 			if !ok || fr.Field != distField {
 				return
 			}
+			a := anchorIn(st)
+			if a == nil {
+				c.R.Undecided("HEAP-H2", "distance-store|"+core.FuncName(fn), name, p.InstrPos(st), "a distance store in a helper that is reached from several places (undecidable by this rule)")
+				return
+			}
+			if core.InstrDominates(a, inits[0]) || !core.CanFollow(inits[0], a) {
+				initStores = append(initStores, st) // set-up (possibly inside a set-up helper)
+				return
+			}
 			if fn == dj {
-				if core.InstrDominates(st, inits[0]) || !core.CanFollow(inits[0], st) {
-					initStores = append(initStores, st)
-					return
-				}
 				relax = append(relax, dstore{st, fr.Base, fn, nil})
 				return
 			}
-			site := siteOf[fn]
-			if core.InstrDominates(site, inits[0]) || !core.CanFollow(inits[0], site) {
-				return // a helper used during set-up
-			}
-			relax = append(relax, dstore{st, fr.Base, fn, site})
+			relax = append(relax, dstore{st, fr.Base, fn, a.(ssa.CallInstruction)})
 		})
 	}
 
@@ -228,7 +262,7 @@ func runHeap(c *Ctx) {
 				if lk, ok := fr.Base.(*ssa.Lookup); ok {
 					if call, ok := p.IsHashcodeCall(lk.Index); ok {
 						if core.Strip(call.Common().Args[0]) == dj.Params[1] {
-							srcOK = core.InstrDominates(st, inits[0])
+							srcOK = st.Parent() == dj && core.InstrDominates(st, inits[0])
 							srchash = core.Path(lk.Index)
 						}
 					}
@@ -248,60 +282,15 @@ func runHeap(c *Ctx) {
 	for i, r := range relax {
 		key := fmt.Sprintf("relax#%d", i+1)
 		pos := p.InstrPos(r.st)
-		// view helper parameters as the arguments of its call site in the search (virtual inlining, one level)
-		env := map[*ssa.Parameter]ssa.Value{}
-		if r.site != nil {
-			for pi, prm := range r.fn.Params {
-				if pi < len(r.site.Common().Args) {
-					env[prm] = r.site.Common().Args[pi]
-				}
-			}
-		}
-		up := func(v ssa.Value) ssa.Value {
-			if prm, ok := v.(*ssa.Parameter); ok {
-				if a, ok := env[prm]; ok {
-					return a
-				}
-			}
-			return v
-		}
-		core.PathEnv = env
 		vPath := core.Path(r.base)
-		// H2: repaired before the next pop, predecessor stored alongside
-		targets := []ssa.Instruction{pop}
-		if r.site != nil {
-			targets = nil
-			for _, ret := range core.Returns(r.fn) {
-				targets = append(targets, ret)
-			}
-		}
-		repaired := true
-		for _, tgt := range targets {
-			if reachesWithout(r.st, tgt, stopAtRepair(indexField, vPath)) {
-				repaired = false
-			}
-		}
-		_ = func() bool {
-			return !reachesWithout(r.st, pop, func(in ssa.Instruction) bool {
-				if call, ok := in.(ssa.CallInstruction); ok {
-					n := core.CalleeName(call.Common())
-					if n == heapInit {
-						return true
-					}
-					if n == heapFix || n == heapRem {
-						if fr, ok := core.AsFieldLoad(call.Common().Args[1]); ok && fr.Field == indexField && core.Path(fr.Base) == vPath {
-							return true
-						}
-					}
-				}
-				return false
-			})
-		}
+		// H2: repaired before the next pop — inside the function of the store, or, when the store sits in a helper that
+		// reports the update through a constant boolean result, on the branch of the caller that sees that result
+		repaired := c.heapRepaired(r.st, dj, pop, stopAtRepair(indexField, vPath), 0)
 		prevOK := false
 		for _, in := range r.st.Block().Instrs {
 			if st, ok := in.(*ssa.Store); ok && st != r.st {
 				if fr, ok := core.AsFieldAddr(st.Addr); ok && core.Path(fr.Base) == vPath {
-					if src, ok := core.AsFieldLoad(st.Val); ok && core.Path(src.Base) == uPath && src.Field == vField {
+					if src, ok := core.AsFieldLoad(up(st.Val)); ok && core.Path(src.Base) == uPath && src.Field == vField {
 						prevOK = true
 					}
 				}
@@ -317,7 +306,7 @@ func runHeap(c *Ctx) {
 		// H3: value = u.distance + weight, guarded by sum < / <= old and by not-visited
 		sumOK, wOK := false, false
 		var weightKeyPath string
-		if b, ok := r.st.Val.(*ssa.BinOp); ok && b.Op == token.ADD {
+		if b, ok := up(r.st.Val).(*ssa.BinOp); ok && b.Op == token.ADD {
 			for _, pair := range [][2]ssa.Value{{b.X, b.Y}, {b.Y, b.X}} {
 				if fr, ok := core.AsFieldLoad(pair[0]); ok && fr.Field == distField && core.Path(fr.Base) == uPath {
 					sumOK = true
@@ -350,10 +339,7 @@ func runHeap(c *Ctx) {
 			itemOK = true
 		}
 		c.R.Add("HEAP-H3", key+"|item-of-neighbour", name, pos, itemOK, "the relaxed item is the queue item of the iterated neighbour", fmt.Sprintf("ok=%v", itemOK))
-		lits := core.Lits(core.Guards(r.st.Block()))
-		if r.site != nil {
-			lits = append(lits, core.Lits(core.Guards(r.site.Block()))...)
-		}
+		lits := p.ILits(r.st.Block())
 		cmpOK, visOK := false, false
 		oldPath := vPath + "." + distField
 		for _, l := range lits {
@@ -367,7 +353,7 @@ func runHeap(c *Ctx) {
 				}
 			}
 			if l.Kind == "ok" && !l.Pol && visited != nil {
-				if lk, ok := l.Of.(*ssa.Lookup); ok && lk.X == visited && core.Path(lk.Index) == weightKeyPath {
+				if lk, ok := l.Of.(*ssa.Lookup); ok && up(lk.X) == visited && core.Path(lk.Index) == weightKeyPath {
 					visOK = true
 				}
 			}
@@ -377,8 +363,6 @@ func runHeap(c *Ctx) {
 			"the update is guarded by 'neighbour not yet extracted' and every extracted vertex is recorded as visited right after the pop (also what keeps the predecessor map acyclic)",
 			fmt.Sprintf("visited-set-found=%v guard=%v", visited != nil, visOK))
 	}
-
-	core.PathEnv = nil
 
 	// H6: the predecessor of an item is written only together with a lowered distance (so only while the item
 	// is unvisited and from a visited vertex): every store to the predecessor field after initialisation shares
@@ -429,7 +413,7 @@ func runHeap(c *Ctx) {
 		// H4b: the queue items of a search are allocated by that search (nothing survives from an earlier call)
 		freshItems := true
 		nItems := 0
-		core.Instrs(dj, func(in ssa.Instruction) {
+		p.RegionInstrs(dj, func(in ssa.Instruction) {
 			mu, ok := in.(*ssa.MapUpdate)
 			if !ok || core.NamedOf(mu.Value.Type()) == "" {
 				return
@@ -446,16 +430,19 @@ func runHeap(c *Ctx) {
 	}
 
 	// H5: results are read from the items
-	rets := core.Returns(dj)
 	distRes, prevRes := false, false
-	if len(rets) > 0 && len(rets[0].Results) == 2 {
-		core.Instrs(dj, func(in ssa.Instruction) {
+	for _, ir := range p.IReturns(dj) {
+		if len(ir.Results) != 2 {
+			continue
+		}
+		fnr := ir.Ret.Parent()
+		core.Instrs(fnr, func(in ssa.Instruction) {
 			mu, ok := in.(*ssa.MapUpdate)
 			if !ok {
 				return
 			}
 			for ri := 0; ri < 2; ri++ {
-				for _, rv := range core.ReturnOperand(rets[0], ri) {
+				for _, rv := range core.ReturnOperand(ir.Ret, ri) {
 					if mu.Map != rv {
 						continue
 					}
@@ -587,12 +574,85 @@ func indexParam(v ssa.Value) int {
 // some path reaches instruction target without first executing an instruction
 // for which stop returns true.
 func reachesWithout(from ssa.Instruction, target ssa.Instruction, stop func(ssa.Instruction) bool) bool {
+	return reachesWithoutFrom(from.Block(), core.InstrIndex(from)+1, target, stop)
+}
+
+// heapRepaired: on every path from `from` to the next heap.Pop the queue is repaired (stop). When `from` lies in a
+// private helper and a path leaves the helper unrepaired, the check continues in the caller: after the call, or —
+// if the helper reports the update through a constant boolean result that the caller branches on — on that branch.
+func (c *Ctx) heapRepaired(from ssa.Instruction, dj *ssa.Function, pop ssa.Instruction, stop func(ssa.Instruction) bool, d int) bool {
+	p := c.P
+	fn := from.Parent()
+	if fn == dj {
+		return !reachesWithout(from, pop, stop)
+	}
+	if d > 3 {
+		return false
+	}
+	leaves := false
+	for _, ret := range core.Returns(fn) {
+		if reachesWithout(from, ret, stop) {
+			leaves = true
+		}
+	}
+	if !leaves {
+		return true
+	}
+	sites := p.Callers(fn)
+	if len(sites) != 1 || !p.PrivateHelper(fn) {
+		return false
+	}
+	site := sites[0]
+	// does executing `from` determine a constant boolean result?
+	var k, haveK, constK = false, false, true
+	for _, ret := range core.Returns(fn) {
+		if !(core.InstrDominates(from, ret) || core.CanFollow(from, ret)) {
+			continue
+		}
+		if len(ret.Results) != 1 {
+			constK = false
+			continue
+		}
+		b, ok := core.ConstBool(ret.Results[0])
+		if !ok || (haveK && b != k) {
+			constK = false
+			continue
+		}
+		k, haveK = b, true
+	}
+	if sv, isV := site.(ssa.Value); isV && haveK && constK {
+		refs := sv.Referrers()
+		if refs != nil && len(*refs) == 1 {
+			if iff, ok := (*refs)[0].(*ssa.If); ok && iff.Block() == site.Block() {
+				succ := iff.Block().Succs[0]
+				if !k {
+					succ = iff.Block().Succs[1]
+				}
+				if len(succ.Instrs) > 0 {
+					first := succ.Instrs[0]
+					if stop(first) {
+						return true
+					}
+					return c.heapRepairedFromStart(first, dj, pop, stop, d+1)
+				}
+			}
+		}
+	}
+	return c.heapRepaired(site, dj, pop, stop, d+1)
+}
+
+// heapRepairedFromStart is heapRepaired starting at (and including the successors of) instruction first.
+func (c *Ctx) heapRepairedFromStart(first ssa.Instruction, dj *ssa.Function, pop ssa.Instruction, stop func(ssa.Instruction) bool, d int) bool {
+	return c.heapRepaired(first, dj, pop, stop, d)
+}
+
+func reachesWithoutFrom(b0 *ssa.BasicBlock, i0 int, target ssa.Instruction, stop func(ssa.Instruction) bool) bool {
 	type pos struct {
 		b *ssa.BasicBlock
 		i int
 	}
 	seen := map[*ssa.BasicBlock]bool{}
-	work := []pos{{from.Block(), core.InstrIndex(from) + 1}}
+	work := []pos{{b0, i0}}
 	for len(work) > 0 {
 		w := work[len(work)-1]
 		work = work[:len(work)-1]
